@@ -166,6 +166,7 @@ type c36Case struct {
 	Parameters map[string]string `json:"parameters,omitempty"`
 	Script     recScript         `json:"script"`
 	Prompter   bool              `json:"prompter"`
+	Shape      string            `json:"shape"` // cases of one shape share a control run
 }
 
 type c36Op struct {
@@ -231,15 +232,17 @@ func c36WorkerMain() {
 	runOps := func(mk func() (agent.Transport, error), script recScript) (ops []c36Op, rejected string) {
 		sdata, _ := json.Marshal(script)
 		os.Setenv(recScriptEnv, string(sdata))
+		// one transport for both operations (the Docker transport probes the container once)
+		os.Setenv(recFileEnv, filepath.Join(work, "stray.jsonl"))
+		t, err := mk()
+		if err != nil {
+			return nil, err.Error()
+		}
 		for _, name := range []string{"command", "copy"} {
 			seq++
 			recFile := filepath.Join(work, fmt.Sprintf("rec-%06d.jsonl", seq))
 			os.Setenv(recFileEnv, recFile)
 			op := c36Op{Name: name}
-			t, err := mk()
-			if err != nil {
-				return nil, err.Error()
-			}
 			if name == "command" {
 				cmd, err := t.Command("mutagen-agent synchronizer --log-level=info")
 				if err != nil {
@@ -384,14 +387,26 @@ func c36Component(rng *rand.Rand, hostileBias int) string {
 	return s
 }
 
-func c36Generate(r *vk.Run, n int) []c36Case {
+func c36Generate(r *vk.Run, n, systematicLeads int) []c36Case {
 	rng := r.Rand("urls")
 	cases := make([]c36Case, 0, n)
+	// systematic part: each of the first `systematicLeads` (shuffled) option-like
+	// leads as SSH user, SSH host, Docker user and Docker container
+	type forced struct{ user, host string }
+	var plan []forced
+	for _, li := range rng.Perm(len(hostileLeads))[:systematicLeads] {
+		l := hostileLeads[li]
+		plan = append(plan, forced{l, "host"}, forced{l, "box"}, forced{"", l}, forced{"", l})
+	}
 	for i := 0; i < n; i++ {
 		c := c36Case{Index: i, Script: recScript{Mode: "posix", Home: "/home/u", User: "root", Group: "staff"}}
 		user, host := "", c36Component(rng, 50)
 		if rng.Intn(3) > 0 {
 			user = c36Component(rng, 50)
+		}
+		if i < len(plan) {
+			// plan entries alternate ssh (even i) / docker (odd i): user-position pair, then host-position pair
+			user, host = plan[i].user, plan[i].host
 		}
 		if i%2 == 0 {
 			c.Tool = "ssh"
@@ -399,9 +414,12 @@ func c36Generate(r *vk.Run, n int) []c36Case {
 			if user != "" {
 				raw = user + "@" + host
 			}
+			port := 0
 			if rng.Intn(3) == 0 {
-				raw += fmt.Sprintf(":%d", []int{22, 2222, 1, 65535}[rng.Intn(4)])
+				port = []int{2222, 65535}[rng.Intn(2)]
+				raw += fmt.Sprintf(":%d", port)
 			}
+			c.Shape = fmt.Sprintf("ssh|%v|%d", user != "", port)
 			raw += ":" + []string{"/srv/data", "~/x", "rel/path", "/p with space", "-path"}[rng.Intn(5)]
 			c.Raw = raw
 		} else {
@@ -423,18 +441,18 @@ func c36Generate(r *vk.Run, n int) []c36Case {
 			case 3:
 				c.Script.Mode = "nosuch"
 			}
+			// few distinct shapes, so that control runs are shared
+			pset := 0
 			if rng.Intn(3) == 0 {
-				c.Parameters = map[string]string{}
-				for _, kv := range [][2]string{{"host", "tcp://10.1.1.1:2375"}, {"context", "ctx"}, {"config", "/etc/dk"}, {"tls", ""}, {"tlsverify", ""}, {"tlscacert", "/ca.pem"}} {
-					if rng.Intn(3) == 0 {
-						c.Parameters[kv[0]] = kv[1]
-					}
-				}
+				pset = 1 + rng.Intn(2)
+				c.Parameters = []map[string]string{nil, {"host": "tcp://10.1.1.1:2375", "tlsverify": ""}, {"context": "ctx", "config": "/etc/dk", "tls": "", "tlscacert": "/ca.pem"}}[pset]
 			}
-			c.Prompter = c.Script.Mode == "windows" || rng.Intn(4) == 0
+			c.Prompter = c.Script.Mode == "windows"
+			c.Shape = fmt.Sprintf("docker|%v|%s|%d", user != "", c.Script.Mode, pset)
 		}
 		if c.Tool == "ssh" {
-			c.Prompter = rng.Intn(4) == 0
+			c.Prompter = i%8 == 6
+			c.Shape += fmt.Sprint(c.Prompter)
 		}
 		cases = append(cases, c)
 	}
@@ -520,8 +538,9 @@ func first(s []string) string {
 
 func c36() {
 	r := vk.Start("C36", "exploration")
-	n := r.Pick(800, 8000)
-	cases := c36Generate(r, n)
+	// every case costs 2 (ssh) to 6 (docker) process starts of this binary
+	n := r.Pick(120, 2400)
+	cases := c36Generate(r, n, r.Pick(16, len(hostileLeads)))
 	scratch := r.Scratch()
 	fakeDir := filepath.Join(scratch, "fakebin")
 	must(os.MkdirAll(fakeDir, 0o755))
@@ -529,14 +548,15 @@ func c36() {
 		must(os.Symlink(selfBin(), filepath.Join(fakeDir, tool)))
 	}
 	workers := workerCount()
-	if workers > 8 {
-		workers = 8
-	}
 	results := make([][]c36Result, workers)
+	byShape := append([]c36Case(nil), cases...)
+	sort.SliceStable(byShape, func(i, j int) bool { return byShape[i].Shape < byShape[j].Shape })
 	parallel(workers, workers, func(w int) {
-		var mine []c36Case
-		for i := w; i < len(cases); i += workers {
-			mine = append(mine, cases[i])
+		// contiguous chunks of the shape-sorted list: one worker sees few shapes
+		lo, hi := w*len(byShape)/workers, (w+1)*len(byShape)/workers
+		mine := byShape[lo:hi]
+		if len(mine) == 0 {
+			return
 		}
 		work := filepath.Join(scratch, fmt.Sprintf("worker-%d", w))
 		must(os.MkdirAll(work, 0o755))
